@@ -236,8 +236,13 @@ class Subset(object):
 
         self.do_broadcast(False)
 
-        if self.data is not None and self in self.data.subsets:
-            self.data._subsets.remove(self)
+        # Note that we don't use 'in' or list.remove here, since these would
+        # also match a different subset that is equal to this one.
+        if self.data is not None:
+            for index, subset in enumerate(self.data._subsets):
+                if subset is self:
+                    self.data._subsets.pop(index)
+                    break
 
         if dobroad:
             msg = SubsetDeleteMessage(self)
